@@ -52,7 +52,8 @@ def near_boundary(v, w):
 def judge_numeric(asm, acc, line, pieces, case):
     """pieces: [(value, width, lo, hi, byteorder)] in order; all must fit for the line to be accepted"""
     acc['n'] += 1
-    o = monitors.observe(asm, line, tap=False)
+    # a label behind the directive shows the size the layout passes *booked* for it, next to the bytes that were emitted
+    o = monitors.observe(asm, line + '\nEND_:\n', tap=False)
     fits = all(lo <= v <= hi for v, w, lo, hi, bo in pieces)
     if any(near_boundary(v, w) for v, w, lo, hi, bo in pieces):
         acc['ntkeys'].add(core.ckey(line))
@@ -68,6 +69,11 @@ def judge_numeric(asm, acc, line, pieces, case):
     exp = b''.join((v % (1 << (8 * w))).to_bytes(w, bo) for v, w, lo, hi, bo in pieces)
     if o.out != exp:
         core.add_viol(acc, '`%s` emitted %s, documented encoding is %s' % (line, o.out.hex(), exp.hex()), case, {})
+    elif o.labels is not None and o.labels.get('END_') != len(exp):
+        core.add_viol(acc, '`%s` emitted its %d documented bytes, but the label behind it is reported at %r: the directive was laid out with another size' % (
+            line, len(exp), o.labels.get('END_')), case, {})
+    else:
+        acc['ctr']['sizes_confirmed_by_a_label_behind'] += 1
 
 
 def numeric_shard(asm, acc, sh, deadline):
